@@ -83,33 +83,36 @@ func TestC17(t *testing.T) {
 			}
 		})
 	}
-	for _, tn := range MyTypes() {
+	RunProps(t, rpC17(MyTypes()))
+}
+
+func rpC17(types []string) (out []RProp) {
+	for _, tn := range types {
 		tn := tn
-		t.Run(tn, func(t *testing.T) {
-			CheckProp(t, "C17", "c17", tn, func(rt *rapid.T) *CaseC17 {
-				pre, _ := genPrelude(rt, tn, true)
-				v, ft := GenValue(rt, tn, DefaultOpts(Arbitrary))
-				c := &CaseC17{Type: tn, How: "value", V: v, Pre: pre}
-				nt := ft.Absent > 0 || ft.NilLists > 0
-				cls := append(ft.Classes(), "how:value")
-				if len(pre) > 0 {
-					cls = append(cls, "after-prior-calls")
+		out = append(out, MkProp("C17", "c17", tn, func(rt *rapid.T) *CaseC17 {
+			pre, _ := genPrelude(rt, tn, true)
+			v, ft := GenValue(rt, tn, DefaultOpts(Arbitrary))
+			c := &CaseC17{Type: tn, How: "value", V: v, Pre: pre}
+			nt := ft.Absent > 0 || ft.NilLists > 0
+			cls := append(ft.Classes(), "how:value")
+			if len(pre) > 0 {
+				cls = append(cls, "after-prior-calls")
+			}
+			for _, op := range pre {
+				if op.Kind == "unreg" {
+					cls = append(cls, "a-checksum-service-unregistered")
+					nt = true
 				}
-				for _, op := range pre {
-					if op.Kind == "unreg" {
-						cls = append(cls, "a-checksum-service-unregistered")
-						nt = true
-					}
-				}
-				Col.Case(Hash64(JSONOf(c)), nt, cls...)
-				Col.Program(tn)
-				if nt && Col.WantSample("value") && len(JSONOf(c)) < 1500 {
-					Col.Sample("value", c)
-				}
-				return c
-			}, oracleC17)
-		})
+			}
+			Col.Case(Hash64(JSONOf(c)), nt, cls...)
+			Col.Program(tn)
+			if nt && Col.WantSample("value") && len(JSONOf(c)) < 1500 {
+				Col.Sample("value", c)
+			}
+			return c
+		}, oracleC17))
 	}
+	return
 }
 
 // ---------------------------------------------------------------- C18
@@ -464,26 +467,7 @@ func TestC18(t *testing.T) {
 			}
 		}
 	})
-	t.Run("primitives-random", func(t *testing.T) {
-		CheckProp(t, "C18", "c18prim", "primitives-random", func(rt *rapid.T) *CaseC18Prim {
-			c := &CaseC18Prim{
-				Prim:   rapid.SampledFrom([]string{"str", "numlist", "fixlist", "strlist", "strlist-inner", "objlist"}).Draw(rt, "prim"),
-				Prefix: rapid.SampledFrom([]string{"uint8", "uint8", "uint16", "def-uint8", "def-uint16"}).Draw(rt, "prefix"),
-				LE:     rapid.Bool().Draw(rt, "le"),
-			}
-			max := int(NMask(c.Prefix))
-			c.N = rapid.OneOf(rapid.IntRange(max-2, max+3), rapid.IntRange(0, 3*max+5)).Draw(rt, "n")
-			near := c.N >= max-2 && c.N <= max+2
-			cls := []string{"primitive-random", "prefix:" + c.Prefix}
-			if c.N > max {
-				cls = append(cls, "beyond-max")
-			} else {
-				cls = append(cls, "at-or-below-max")
-			}
-			Col.Case(Hash64(JSONOf(c)), near || c.N > max, cls...)
-			return c
-		}, oracleC18Prim)
-	})
+	RunProps(t, rpC18())
 	t.Run("messages", func(t *testing.T) {
 		for _, tn := range MyTypes() {
 			ts := Types[tn]
@@ -536,4 +520,31 @@ func TestC18(t *testing.T) {
 		}
 		Col.MarkExhaustive("every 16-bit-prefixed text/list field of every type, at top level and nested through parts, object-list elements and every body/extension type, at max and max+1")
 	})
+}
+
+func rpC18() (out []RProp) {
+	out = append(out, MkProp("C18", "c18prim", "primitives-random", func(rt *rapid.T) *CaseC18Prim {
+		c := &CaseC18Prim{
+			Prim:   rapid.SampledFrom([]string{"str", "numlist", "fixlist", "strlist", "strlist-inner", "objlist"}).Draw(rt, "prim"),
+			Prefix: rapid.SampledFrom([]string{"uint8", "uint8", "uint16", "def-uint8", "def-uint16"}).Draw(rt, "prefix"),
+			LE:     rapid.Bool().Draw(rt, "le"),
+		}
+		max := int(NMask(c.Prefix))
+		c.N = rapid.OneOf(rapid.IntRange(max-2, max+3), rapid.IntRange(0, 3*max+5)).Draw(rt, "n")
+		near := c.N >= max-2 && c.N <= max+2
+		cls := []string{"primitive-random", "prefix:" + c.Prefix}
+		if c.N > max {
+			cls = append(cls, "beyond-max")
+		} else {
+			cls = append(cls, "at-or-below-max")
+		}
+		Col.Case(Hash64(JSONOf(c)), near || c.N > max, cls...)
+		return c
+	}, oracleC18Prim))
+	return
+}
+
+func init() {
+	RapidProps["C17"] = func() []RProp { return rpC17(TypeNames) }
+	RapidProps["C18"] = rpC18
 }
